@@ -64,7 +64,7 @@ def gen_template(rng, features: Dict[str, int]):
         s = gen_vmf.gen_solid(rng, tmpl, features)
         s.vis_shown = rng.random() < 0.85
         tmpl.add_brush(s)
-    varnames = ['var', 'Name2', 'x_1']
+    varnames = ['var', 'Name2', 'x_1', 'var2', 'v']   # names that are prefixes of each other: the longest defined name wins
     for _ in range(rng.randint(1, 5)):
         cls = rng.choice(POINT_CLASSES)
         # class names are case-insensitive in Hammer and in the bundled FGD lookups; NAME_KEYS / STR_KEYS stay keyed by the lower-case name
@@ -80,9 +80,11 @@ def gen_template(rng, features: Dict[str, int]):
                 keys[k] = rng.choice(names + ['', 'pre_$var', '$Name2'])
         for k in STR_KEYS[cls]:
             if rng.random() < 0.6:
-                keys[k] = rng.choice(('plain', 'a/$var/b.mdl', '$x_1', 'x $var y $Name2', '', 'cost: $5 $undefined_var end'))
+                keys[k] = rng.choice(('plain', 'a/$var/b.mdl', '$x_1', 'x $var y $Name2', '', 'cost: $5 $undefined_var end',
+                                      '$var2 $var $v', '$var2x$vy', 'a$VAR2b'))
         ent = Entity(tmpl, keys=keys, hidden=rng.random() < 0.15, vis_shown=rng.random() < 0.9,
-                     outputs=[Output('OnTrigger', rng.choice(names + ['$var', 'p_$var']), 'Trigger', rng.choice(('', '$var', '1')), rng.choice((0.0, 1.5)))
+                     outputs=[Output(rng.choice(('OnTrigger', 'OnUser1')), rng.choice(names + ['$var', 'p_$var']), rng.choice(('Trigger', 'FireUser2')),
+                                     rng.choice(('', '$var', '1')), rng.choice((0.0, 1.5)), times=rng.choice((-1, 1, 3)))
                               for _ in range(rng.choice((0, 0, 1, 2)))])
         tmpl.add_ent(ent)
     if rng.random() < 0.5:
@@ -199,7 +201,7 @@ class Collapser:
                 nontrivial = True
             style = rng.randrange(3)
             inst_name = rng.choice(('inst', 'Inst_B', 'i2'))
-            table = {v.casefold(): rng.choice(('val', 'Other_7', 'models/x', '12')) for v in varnames if rng.random() < 0.8}
+            table = {v.casefold(): rng.choice(('val', 'Other_7', 'models/x', '12', 'dir\\sub', '\\1\\g<0>', 'c$d', '')) for v in varnames if rng.random() < 0.8}
             inst_ent = target.create_ent('func_instance', targetname=inst_name, origin=' '.join(repr(x) for x in pos),
                                          angles=' '.join(repr(x) for x in ang), file='tmpl.vmf', fixup_style=str(style))
             for v, val in table.items():
@@ -274,7 +276,7 @@ class Collapser:
         return sides
 
     def snap_ent(self, e) -> dict:
-        return {'keys': {k: e[k] for k in e}, 'outputs': [(o.output, o.target, o.input, o.params) for o in e.outputs],
+        return {'keys': {k: e[k] for k in e}, 'outputs': [(o.output, o.target, o.input, o.params, o.delay, o.times, o.inst_out, o.inst_in) for o in e.outputs],
                 'solids': [self.snap_solid(s) for s in e.solids], 'fixup': {k: v for k, v in e.fixup.items()} if e._fixup is not None else {}}
 
     # ---- the laws
@@ -508,10 +510,19 @@ class Collapser:
                     if got != want:
                         self.fail(f'{label}: fixup ${var} of the nested instance is {got!r}, expected {want!r} (template {val0!r}, style {style})', 'nested-fixup-name')
                         return
-            for (o_out, o_tgt, o_in, o_par), new_o in zip(snap['outputs'], new.outputs):
+            if len(new.outputs) != len(snap['outputs']):
+                self.fail(f'{label}: the collapsed copy has {len(new.outputs)} outputs, the template entity {len(snap["outputs"])}', 'output-list-changed')
+                return
+            for (o_out, o_tgt, o_in, o_par, o_delay, o_times, o_iout, o_iin), new_o in zip(snap['outputs'], new.outputs):
                 want = fixup_name_model(style, inst_name, substitute_model(o_tgt, table))
                 if new_o.target != want:
                     self.fail(f'{label}: output target {new_o.target!r}, expected {want!r} (template {o_tgt!r}, style {style})', 'output-target-fixup')
+                    return
+                # everything else of an output travels unchanged (only the target is a name)
+                rest_new = (new_o.output, new_o.input, new_o.params, new_o.delay, new_o.times, new_o.inst_out, new_o.inst_in)
+                rest_old = (o_out, o_in, o_par, o_delay, o_times, o_iout, o_iin)
+                if rest_new != rest_old:
+                    self.fail(f'{label}: output fields other than the target changed: {rest_old!r} -> {rest_new!r}', 'output-list-changed')
                     return
                 self.run.count('output_targets_checked')
 
